@@ -24,7 +24,7 @@ PASSWORDS = {
     "looks-like-command": ("PASS Xq USER", "PASS Xr USER"),
 }
 SPELLINGS = ["PASS", "pass", "PaSs", "pAsS"]
-OUTCOMES = ["accepted", "rejected", "out-of-sequence", "after-login"]
+OUTCOMES = ["accepted", "rejected", "out-of-sequence", "after-login", "over-limit"]
 # what happens right after the PASS exchange: nothing special, or an error path of the dispatcher
 # (idle timeout, undecodable line, peer reset, server shutdown) while PASS is the last command seen
 AFTER = ["pwd-quit", "idle-timeout", "garbage", "reset", "server-close"]
@@ -54,12 +54,20 @@ def one_run(args):
     root.setLevel(logging.DEBUG)
     for n in ("aioftp.client", "aioftp.server", "asyncio"):
         logging.getLogger(n).setLevel(logging.DEBUG)
-    users = [{"id": "u1", "login": "u1", "pw": pw if outcome != "rejected" else pw + "-not", "max": 0, "perms": [], "home": [], "base": ["A"]}]
-    cfg = gen.std_cfg(ns=1, users=users, idle=1000 if after == "idle-timeout" else 0)
+    users = [{"id": "u1", "login": "u1", "pw": pw if outcome != "rejected" else pw + "-not", "max": 1 if outcome == "over-limit" else 0,
+              "perms": [], "home": [], "base": ["A"]}]
+    cfg = gen.std_cfg(ns=2, users=users, idle=1000 if after == "idle-timeout" else 0)
     observed = {}
     sent = {}
 
     async def sc(factory, w):
+        if outcome == "over-limit":
+            # another session of the same account already holds its only slot
+            c0 = factory()
+            simnet.CUR_SESSION.set(2)
+            await c0.connect("127.0.0.1", W.CTL_PORT)
+            await c0.login("u1", pw)
+            simnet.CUR_SESSION.set(1)
         c = factory()
         await c.connect("127.0.0.1", W.CTL_PORT)
         if via_client:
@@ -67,7 +75,7 @@ def one_run(args):
                 await c.login("u1", pw)
                 observed["o"] = "accepted"
             except aioftp.StatusCodeError as e:
-                observed["o"] = "rejected"
+                observed["o"] = "rejected" if outcome != "over-limit" else "over-limit"
             if outcome == "after-login":
                 code, info = await c.command("PASS " + pw, ("2xx", "5xx"), censor_after=5)
                 observed["o"] = "after-login" if code == "503" else "?" + code
@@ -78,11 +86,13 @@ def one_run(args):
                 await c.stream.write((line + "\r\n").encode("utf-8"))
                 return await c.command(None, expect)
             if outcome != "out-of-sequence":
-                await raw("USER u1")
+                ucode, _ = await raw("USER u1")
             code, info = await raw(spelling + " " + pw)
             if outcome == "after-login":
                 code, info = await raw(spelling + " " + pw)
             observed["o"] = {"230": "accepted", "530": "rejected", "503": "out-of-sequence" if outcome == "out-of-sequence" else "after-login"}.get(str(code), "?" + str(code))
+            if outcome == "over-limit":
+                observed["o"] = "over-limit" if str(ucode) == "530" else "?" + str(ucode)
             sent["n"] = len(pw.rstrip())
         try:
             if after == "pwd-quit":
